@@ -28,6 +28,10 @@ def build(ctx):
     part_leading_blank(ctx, eng)
     part_leading_whitespace(ctx, eng)
     part_auto_end_to_end(ctx, eng)
+    # which text the emitter gets as the original (a fixed newline style must be compared with the bytes on disk): kernel shared with C06
+    import c06
+    eng.stubs = []
+    c06.part_write_file(ctx, eng, c06.replay_cli(ctx, 'files'))
     validate(ctx)
 
 
